@@ -3,6 +3,7 @@ import Driver.Common
 import Model.Elab
 import Proofs.WFCheck
 import Proofs.Containers
+import Proofs.Aligned
 /-! driver command `J {"op":"sched", …}`: run the scheduler model on one scenario projection -/
 namespace SPD
 open SP Lean
@@ -129,7 +130,10 @@ def runSched (j : Json) : Json :=
         (match childMinStart σ cs with | some s => (σ.tst c).start == some s | none => true) &&
         (match childMaxEnd σ cs with | some s => (σ.tst c).stop == some s | none => true))
     else allSched)
-  let thm := Json.mkObj [("containers", Json.num (JsonNumber.fromNat conts.length)), ("container_fail", Json.num (JsonNumber.fromNat contFail.length)),
+  -- calendars: resources whose calendar is aligned with the grid (hypothesis of C02.booked_every_second)
+  let nAligned := ((List.range e.res.size).filter (fun r => calAlignedB el.cal (el.rcal.getD r {}))).length
+  let thm := Json.mkObj [("resources", Json.num (JsonNumber.fromNat e.res.size)), ("resources_aligned", Json.num (JsonNumber.fromNat nAligned)),
+                         ("containers", Json.num (JsonNumber.fromNat conts.length)), ("container_fail", Json.num (JsonNumber.fromNat contFail.length)),
                          ("elig", Json.num (JsonNumber.fromNat eligs.length)), ("elig_scheduled", Json.num (JsonNumber.fromNat eligSched.length)),
                          ("effort_exact_fail", Json.num (JsonNumber.fromNat effortFail.length)),
                          ("fwd_scheduled", Json.num (JsonNumber.fromNat fwds.length)), ("dep_edges", Json.num (JsonNumber.fromNat depPairs.length)),
